@@ -65,7 +65,31 @@ def build(rng, tier):
                 rt, rn = ("runtop", "runp") if j % 2 == 1 else ("runto", "run")
                 ops = [f"eng new {inst} {pid}"] + engcheck.load_ops(inst, inp) + [f"eng {rt} {inst} {k}", f"eng dump {inst}", f"eng {rn} {inst}", f"eng dump {inst}"]
                 cases.append(engcheck.Case(pid, inst, ops, {"inp": inp, "kind": "agg-single", "k": k}))
+    # a BYODS relation (`#[ds(trrel)]`: its rows live in the index, the `rel` field is a FakeVec) fed by FACTS, read by a long recursive stratum and by a later one:
+    # an interrupted call drops the indices the interrupted stratum took out of the struct - for a BYODS relation that is its content - and the resumed call must
+    # re-evaluate the fact strata (the model side is the explicit-closure twin; the real side is judged by the oracle on the plain relations)
+    from . import c11
+    tb = {"rels": [{"arity": 1}, {"arity": 2, "ds": "trrel"}, {"arity": 2}],
+          "rules": [{"heads": [(1, [1, 2])], "body": []}, {"heads": [(1, [2, 3])], "body": []}, {"heads": [(1, [3, 4])], "body": []},
+                    {"heads": [(0, [0])], "body": []},
+                    {"heads": [(0, [("add", ("var", 0), 1)])], "body": [("cl", 0, [("v", 0)], []), ("cl", 1, [("e", 1), ("e", 4)], []), ("if", ("lt", ("var", 0), 6))]},
+                    {"heads": [(2, [1, ("var", 2)])], "body": [("cl", 0, [("v", 0)], []), ("if", ("eq", ("var", 0), 6)), ("cl", 1, [("e", 1), ("v", 2)], [])]}],
+          "t": 1, "A": 2, "role": {"t": 1}}
+    c11.TAGGED["tbyods"] = tb
+    progs["tbyods"] = eng.twin(tb)
+    mods.append(("tbyods", tagged_module("tbyods", tb, ("generate_run_timeout",))))
+    for k in range(MAXK):
+        inst = f"tbyods_{k}"
+        ops = [f"eng new {inst} tbyods", f"eng runto {inst} {k}", f"eng dump {inst}", f"eng run {inst}", f"eng dump {inst}"]
+        cases.append(engcheck.Case("tbyods", inst, ops, {"inp": {}, "kind": "byods-facts", "k": k, "byods": 1}))
     return progs, mods, cases
+
+
+def tagged_module(pid, p, attrs):
+    """the module of a program with a `ds`-tagged relation: the tagged relation cannot be loaded (its `rel` field is a FakeVec)"""
+    import re
+    t = p["t"]
+    return "\n".join((f"         {t} => return None," if re.match(rf"\s+{t} => \{{ let v: Vec<", line) else line) for line in eng.rs_module(pid, p, attrs=attrs).split("\n"))
 
 
 def lat_below(p, got_dump, spec_db):
@@ -85,6 +109,7 @@ def oracle(c, p, out):
             if not l.startswith("r0:"): return "dump failed: " + l
             sets, _ = engcheck.dump_sets(l)
             for r in range(len(p["rels"])):
+                if c.meta.get("byods") == r: continue          # the tagged relation has no readable rows
                 got = sets.get(r, set())
                 if p["rels"][r].get("lat") and prev_ret == "false":
                     # an interrupted lattice relation holds, per key, some value BELOW the final one: keys must exist in the final relation
@@ -103,6 +128,7 @@ def oracle(c, p, out):
 def canon(c, out):
     """the state at an interruption depends on which valid SCC order is followed (petgraph's and the model's may differ):
     intermediate dumps are judged by the oracle only; return values and completed states are compared exactly"""
+    if c.meta.get("byods"): return ["<BYODS program: judged by the oracle on the plain relations>" for _ in out]
     if c.meta.get("lat"):
         # with lattices the number of iterations (hence of clock readings) depends on the enumeration order (live reads of improving values):
         # only the completed final state is compared with the model; return values and intermediate states are judged by the oracle
